@@ -2,6 +2,7 @@
 From Model Require Import Engine.
 From Spec Require Import Sem FindSpec.
 From Proofs Require Import Relocate Transparent.
+From Proofs Require ShiftSem.
 Local Open Scope nat_scope.
 
 (* relocation: laying a stored pattern out d program counters further equals applying the
@@ -10,6 +11,22 @@ Theorem C13_gen_relocate :
   forall (d : nat) (r : rx) (o : nat), atoms_fixed r -> compile (Rx.shift d r) (o + d) = map (Gen.adjust d) (compile r o).
 Proof. exact gen_relocate_lemma. Qed.
 Print Assumptions C13_gen_relocate.
+
+(* ... and the relocated pattern means the same: in the specification, a pattern laid out d program
+   counters further has exactly the outcomes it had, when the subroutine table moves with it *)
+Theorem C13_relocation_preserves_meaning :
+  forall text start d defs defs' r s l, ShiftSem.defs_moved d defs defs' ->
+  outs text start defs r s l -> outs text start defs' (Rx.shift d r) s l.
+Proof. exact ShiftSem.outs_shift_lemma. Qed.
+Print Assumptions C13_relocation_preserves_meaning.
+
+(* loop ids (random numbers in the implementation) carry no meaning: two patterns of the same shape
+   mean the same - two compilations of one source cannot differ in what they find *)
+Theorem C13_loop_ids_irrelevant :
+  forall text start defs a b, ShiftSem.same_shape a b ->
+  forall s l, outs text start defs a s l <-> outs text start defs b s l.
+Proof. exact ShiftSem.same_shape_sem. Qed.
+Print Assumptions C13_loop_ids_irrelevant.
 
 (* an inline subroutine used in place means its body *)
 Theorem C13_transparent_inline :
